@@ -380,9 +380,9 @@ def c15(tier, seed):
                      'key -> target table is validated, and at the end the dispatcher is probed with every registered name, every '
                      'name one edit away (dropped / doubled / trailing dot, dropped segment, case flip) and private / non-callable '
                      'member names; non-trivial = some probe reached a function'
-                     % ('ALL histories of length 4 over a 14-operation alphabet (merges 3 deep) + 3000 random walks of length 6 over the '
+                     % ('ALL histories of length 4 over a 16-operation alphabet (merges 3 deep, two functions competing for one name of one registry) + 3000 random walks of length 6 over the '
                         'full 37-operation alphabet' if quick else
-                        'ALL histories of length 3 over the full 37-operation alphabet, all of length 4 over 14 operations, 60000 random walks of length 6'),
+                        'ALL histories of length 3 over the full 37-operation alphabet, all of length 4 over 16 operations, 60000 random walks of length 6'),
                 assumptions=ASSUME_COMMON + ['add_methods(Method(...)) into a PREFIXED registry is not explored (DESIGN 3.3: the '
                                              'statement can be read either way)'],
                 exhaustive=False)
